@@ -588,6 +588,86 @@ fn check_diag(rep: &Report, rng: &mut Rng, core: Option<usize>, cli: bool) {
     }
 }
 
+/// (d) one context used for several texts in a row (the way the library's own tests use it, no clear in between): after
+/// texts that were refused -- in particular inside a macro expansion -- the instructions of the next accepted text must
+/// still be mapped to their own lines of that text
+fn check_map_continued(rep: &Report, rng: &mut Rng, core: Option<usize>) {
+    let mut sess = crate::asm::Session::new();
+    let a = "x: db 5\nmacro mimm(v) -> mov al,v <-\nmacro mbad(p) -> mov si,1 mov p,p,p <-\nmacro mnest(v) -> mov di,2 mimm(v) <-\nmacro mjmp(t) -> jmp t <-\nstart:\nmov ax,1\n";
+    if sess.parse(a).is_err() {
+        rep.inconclusive("continued-map prologue refused");
+        return;
+    }
+    let refused_pool = ["mimm(300)\n", "mbad(5)\n", "mnest(300)\n", "mov al,\n", "mov ax,1 )\n", "nosuchmacro(1)\n", "mov bl, 256\n", "\n\n   mimm(70000)\n", "mjmp(x)\n"];
+    let mut hist = Vec::new();
+    for _ in 0..rng.below(3) {
+        let b = refused_pool[rng.below(refused_pool.len())];
+        let r = sess.parse(b);
+        hist.push(format!("{:?} -> {}", b, if r.is_ok() { "accepted" } else { "refused" }));
+    }
+    let before = sess.code().len();
+    // the text under test: (line text, number of instructions it emits)
+    let uid = 9000 + rng.below(500);
+    let pool: [(&str, usize); 8] = [("mov si,7", 1), ("  mov di,8", 1), ("", 0), ("mimm(5)", 1), ("mnest(6)", 2), ("print reg", 1), ("\tstc", 1), ("mov bx,1 mov cx,2", 2)];
+    let mut text = String::new();
+    let mut expect: Vec<usize> = Vec::new(); // 1-based line of every emitted instruction
+    let nl = 2 + rng.below(6);
+    for li in 0..nl {
+        let (t, k) = pool[rng.below(pool.len())];
+        text.push_str(t);
+        text.push('\n');
+        for _ in 0..k {
+            expect.push(li + 1);
+        }
+    }
+    text.push_str(&format!("jmp later{}\n", uid));
+    expect.push(nl + 1);
+    let jmp_line = nl + 1;
+    rep.eval(1);
+    rep.distinct_str(&format!("map-continued|{}|{}", hist.len(), expect.len().min(8)));
+    let r = sess.parse(&text);
+    let fin = sess.finish();
+    let fail = |sig: &str, what: &str, detail: String| {
+        rep.fail(Failure {
+            sig: format!("map:continued:{}", sig),
+            what: format!("C16: {}", what),
+            witness: format!("{{\"kind\": \"src-sequence\", \"prologue\": {}, \"refused_before\": {:?}, \"source\": {}, \"detail\": {}}}", json_str(a), hist, json_str(&text), json_str(&detail)),
+            core_item: core.map(|k| format!("{}|{}", k, sig)),
+        });
+    };
+    if r.is_err() {
+        fail("valid-text-refused", "a valid text is refused on a context that refused other texts before", format!("{:?}", r));
+        return;
+    }
+    if fin.code.len() != before + expect.len() {
+        rep.count("continued texts whose instruction count differs from the generator's (not judged)", 1);
+        return;
+    }
+    rep.count("instructions whose source-map entry was compared", expect.len() as u64);
+    for (j, line) in expect.iter().enumerate() {
+        match fin.source_map.get(&(before + j)) {
+            None => {
+                fail("missing", "an instruction emitted after refused texts has no source-map entry", format!("instruction {} `{}`", j, fin.code[before + j]));
+                return;
+            }
+            Some(off) => {
+                let l = line_of(&text, *off);
+                if l != *line {
+                    fail("wrong-line", "an instruction emitted after refused texts (no clear in between) is mapped to a different line than the one that produced it", format!("instruction {} `{}` expected line {} mapped offset {} (line {})", j, fin.code[before + j], line, off, l));
+                    return;
+                }
+            }
+        }
+    }
+    // the forward reference is recorded on the jump's line as well
+    let name = format!("later{}", uid);
+    if let Some((pos, _)) = fin.undefined.iter().find(|(_, l)| *l == name) {
+        if line_of(&text, *pos) != jmp_line {
+            fail("forward-reference-position", "a forward reference recorded after refused texts carries a position on another line", format!("expected line {} position {} (line {})", jmp_line, pos, line_of(&text, *pos)));
+        }
+    }
+}
+
 /// driver-level and semantic diagnostics at known lines
 fn check_semantic(rep: &Report, rng: &mut Rng, core: Option<usize>) {
     let pre = rng.below(6);
@@ -726,6 +806,11 @@ pub fn run(rep: &Report) {
         let core = i < 60;
         let mut rng = if core { Rng::new(0xC16D).fork(i as u64) } else { Rng::new(seed).fork(0xC16D_0000 + i as u64) };
         check_semantic(rep, &mut rng, if core { Some(i) } else { None });
+    });
+    par_for(if t { 20_000 } else { 400 }, 8, |i| {
+        let core = i < 80;
+        let mut rng = if core { Rng::new(0xC16E).fork(i as u64) } else { Rng::new(seed).fork(0xC16E_0000 + i as u64) };
+        check_map_continued(rep, &mut rng, if core { Some(i) } else { None });
     });
     rep.floor("instructions whose source-map entry was compared", rep.counter("instructions whose source-map entry was compared"), 10_000);
     rep.floor("messages checked", rep.counter("messages checked"), 1000);
